@@ -203,6 +203,7 @@ def run(repo, rep, tier):
     hrows = [i for i in range(len(lin.rows))
              if any(n is h and f == "body" for n, f in lin.path(i))]
     trunc = fallback = record = None
+    trunc_top = False
     handler_calls = []
     for i in hrows:
         it = lin.item(i)
@@ -211,6 +212,12 @@ def run(repo, rep, tier):
                             "del __stream[_S:len(__stream)]"):
                 for node, b in L.frag_find(it, pattern):
                     trunc = (i, L.name_key(it, b["_S"]))
+                    # (a statement of the fragment itself: not under a test
+                    # of the saved length -- 0 is a length, the element may
+                    # be the first thing written)
+                    par_ = getattr(node, "_parent", None)
+                    trunc_top = it.tree is not None and any(
+                        st is node for st in getattr(it.tree, "body", []))
             for node, b in L.frag_find(it, "econtext[_K] = _C(_E, _P)"):
                 record = (i, it, b)
             for node, b in L.frag_find(it, "_H(_E)", "expr"):
@@ -224,6 +231,11 @@ def run(repo, rep, tier):
     rep.check(trunc is not None, "R13.1", site,
               "the handler truncates the stream (del __stream[saved:])",
               construct="truncate", where=where)
+    if trunc is not None:
+        rep.check(trunc_top, "R13.1", site, "the truncation is "
+                  "unconditional (a saved length of 0 is a length: the "
+                  "element may open the document or a captured block)",
+                  construct="truncate-unconditional", where=where)
     rep.check(fallback is not None, "R13.1", site,
               "the handler emits the fallback (node.fallback)",
               construct="fallback", where=where)
@@ -405,6 +417,17 @@ def run(repo, rep, tier):
                       "expression is a string constant (static attributes)",
                       construct="static-filter", where=vwhere,
                       detail=A.show(attrs, limit=3))
+            # ... and all of them: the filter asks what the attribute IS
+            # (type tests only), not whether its text is non-empty --
+            # alt="" and a valueless 'disabled' are static attributes
+            tests_ = [w.test for w in A.walk(attrs)
+                      if isinstance(w, A.Alt) and _static_filter(w.test)]
+            rep.check(bool(tests_) and all(_type_tests_only(t_)
+                                           for t_ in tests_), "R13.3",
+                      vfunc.qualname, "every static attribute is kept, "
+                      "also one with an empty value",
+                      construct="static-filter-total", where=vwhere,
+                      detail="; ".join(t_[:100] for t_ in tests_))
             break
         # attributes of the fallback tag are rendered outside the Cache of
         # the attribute dictionaries: they must not carry override filters
@@ -650,6 +673,17 @@ def _plen(e, entry):
             return {entry} | _plen(e.args[1], entry)
         return {entry, 0}
     return {None}
+
+
+def _type_tests_only(test):
+    try:
+        tree = ast.parse(test, mode="eval").body
+    except SyntaxError:
+        return False
+    terms = tree.values if isinstance(tree, ast.BoolOp) and \
+        isinstance(tree.op, ast.And) else [tree]
+    return all(isinstance(t, ast.Call) and src(t.func) == "isinstance"
+               for t in terms)
 
 
 def _static_filter(test):
